@@ -6,7 +6,8 @@ from .. import common
 from .. import fam_recipe as fr
 
 THEOREMS = ["C11.resolve_eq_spec", "C11.resolve_default", "C11.resolve_sound",
-            "C11.failed_add_is_valueError", "C11.add_star_resets", "C11.foldl_last"]
+            "C11.failed_add_is_valueError", "C11.add_star_resets", "C11.foldl_last",
+            "C11.history_rules", "C11.history_scope_order", "C11.history_invariant", "C11.history_resolve"]
 
 
 def oracle(ctx, cmds, routs):
@@ -51,7 +52,7 @@ def run(ctx):
                 "Lean model and checked against an independent declarative spec; distinct = distinct histories")
     ctx.explanation = ("resolve_eq_spec proves, for every state, regex semantics and query, that the code's nested loops equal 'last applicable rule "
                        "in scope order wins, else no-quantize'; the state after a history is tied to the code by the correspondence.")
-    common.proof_side(ctx, THEOREMS)
+    common.proof_side(ctx, THEOREMS, modules=["QProps.C11", "QProps.C11b"])
     drv = common.Driver()
     rng = ctx.rng
     # exhaustive: all histories of length <= 2 over a reduced alphabet
